@@ -51,9 +51,14 @@ SAN_ENV = {
 DEFAULT = {"variant": "asan", "adapters": True, "quick": {"shards": 8, "n": 1500, "scale": 20, "arg": 0},
            "thorough": {"shards": 16, "n": 12000, "scale": 30, "arg": 0}, "fuzz_s": 0}
 CONFIG = {
-    "C01": {"quick": {"shards": 8, "n": 1500, "scale": 20, "arg": 10},
+    "C03": {"quick": {"shards": 8, "n": 4000, "scale": 20, "arg": 10}, "thorough": {"shards": 16, "n": 25000, "scale": 40, "arg": 24}},
+    "C04": {"quick": {"shards": 8, "n": 5000, "scale": 20, "arg": 10}, "thorough": {"shards": 16, "n": 30000, "scale": 40, "arg": 24}},
+    "C05": {"quick": {"shards": 8, "n": 4000, "scale": 20, "arg": 10}, "thorough": {"shards": 16, "n": 25000, "scale": 40, "arg": 24}},
+    "C06": {"quick": {"shards": 8, "n": 3000, "scale": 24, "arg": 10}, "thorough": {"shards": 16, "n": 20000, "scale": 40, "arg": 24}},
+    "C19": {"quick": {"shards": 8, "n": 3000, "scale": 24, "arg": 10}, "thorough": {"shards": 16, "n": 20000, "scale": 40, "arg": 24}},
+    "C01": {"quick": {"shards": 8, "n": 5000, "scale": 20, "arg": 10},
             "thorough": {"shards": 16, "n": 10000, "scale": 40, "arg": 24}},
-    "C02": {"quick": {"shards": 8, "n": 700, "scale": 20, "arg": 10},
+    "C02": {"quick": {"shards": 8, "n": 2000, "scale": 20, "arg": 10},
             "thorough": {"shards": 16, "n": 5000, "scale": 40, "arg": 24}},
     "C18": {"quick": {"shards": 8, "n": 2500, "scale": 10, "arg": 6},
             "thorough": {"shards": 16, "n": 20000, "scale": 16, "arg": 10}},
